@@ -45,7 +45,7 @@ func Verif_C16_HTTP() {
 		desc = grpchan.InterceptServer(desc, hooks.UnaryInt("decor", dForward, shortErr, checkU), hooks.StreamInt("decor", dForward, shortErr, checkS))
 	}
 	srv.RegisterService(desc, &zzfix.Srv{Name: "a", Hooks: hooks})
-	ut := &verifTransport{handler: srv}
+	ut := &verifTransport{handler: srv, inline: true}
 	st := &verifStreamTransport{handler: srv}
 	ch := &Channel{Transport: &verifRouter{unary: ut, stream: st}, BaseURL: verifURL("http", "h", "/")}
 
